@@ -444,7 +444,82 @@ def run_case(st: Stats, case, perms):
         st.sample(dict(case=list(case), files=files))
 
 
+# ---- types extended through an imported (local) name --------------------------------------------
+EXT_VIA = ["only-rename", "plain-rename", "reexport-rename", "reexport-plain", "only", "plain"]
+EXT_CHILD = ["original-name", "other-name", "in-procedure"]
+EXT_WHERE = ["module", "program", "submodule"]
+
+
+def run_extends(st: Stats, case, perms):
+    """`extends(<local name>)`: the base type is the exporting module's entity, whatever the child type is called (the original
+    name of a renamed import is free for it) and wherever it is declared; the child inherits the component and the binding once."""
+    _, via, child, where = case
+    files = {"base.f90": "module base\n  implicit none\n  type :: object_t\n    integer :: c0\n  contains\n    procedure :: b0\n  end type object_t\ncontains\n"
+                         "  subroutine b0(self)\n    class(object_t) :: self\n  end subroutine b0\nend module base\n"}
+    src_mod, remote = "base", "object_t"
+    if via.startswith("reexport"):
+        if via == "reexport-rename":
+            files["mid.f90"] = "module mid\n  use base, only: mid_t => object_t\n  implicit none\nend module mid\n"
+            src_mod, remote = "mid", "mid_t"
+        else:
+            files["mid.f90"] = "module mid\n  use base\n  implicit none\nend module mid\n"
+            src_mod = "mid"
+    renamed = via in ("only-rename", "plain-rename", "reexport-rename")
+    local = "parent_t" if renamed else remote
+    use = {"only-rename": f"use {src_mod}, only: parent_t => {remote}", "plain-rename": f"use {src_mod}, parent_t => {remote}",
+           "reexport-rename": f"use {src_mod}, only: parent_t => {remote}", "reexport-plain": f"use {src_mod}", "only": f"use {src_mod}, only: {remote}",
+           "plain": f"use {src_mod}"}[via]
+    cname = "object_t" if child == "original-name" else "child_t"
+    tdef = [f"type, extends({local}) :: {cname}", "  integer :: c1", f"end type {cname}"]
+    if child == "in-procedure":
+        body = ["contains", "  subroutine holder()"] + ["    " + l for l in tdef] + ["  end subroutine holder"]
+        spec = []
+    else:
+        body, spec = [], ["  " + l for l in tdef]
+    if where == "module":
+        files["cons.f90"] = "\n".join(["module cmod", "  " + use, "  implicit none"] + spec + body + ["end module cmod"]) + "\n"
+    elif where == "program":
+        files["cons.f90"] = "\n".join(["program cmod", "  " + use, "  implicit none"] + spec + body + ["end program cmod"]) + "\n"
+    else:
+        files["cons.f90"] = "\n".join(["module cpar", "  implicit none", "end module cpar", "submodule (cpar) cmod", "  " + use, "  implicit none"] + spec + body + ["end submodule cmod"]) + "\n"
+    names = sorted(files)
+    for order in perms(names):
+        fordrun.FILE_ORDER = lambda fl, order=order: sorted(fl, key=lambda p: order.index(p.name))
+        try:
+            r = fordrun.build_fast({"src/" + n: files[n] for n in names}, dict(display=["public", "private", "protected"], proc_internals=True))
+        finally:
+            fordrun.FILE_ORDER = None
+        st.evaluations += 1
+        st.transitions += 1
+        stratum = "extends-through-local-name"
+        feats = dict(where=f"{where}/{child}", via=via, order=",".join(order))
+        inp = dict(case=list(case), order=list(order), files=files)
+        st.nontrivial.add(core.digest(case))
+        if r.error is not None or not r.project or "ERROR in file" in r.log or "Error parsing" in r.log:
+            st.violation("ford-failed", stratum, feats, inp, repr(r.error) + r.log[-300:], "parses")
+            st.stratum(stratum, 1)
+            continue
+        scopes = list(r.project.modules) + list(r.project.submodules) + list(r.project.programs)
+        cm = [m for m in scopes if m.name == "cmod"][0]
+        holder = cm if child != "in-procedure" else cm.subroutines[0]
+        t = [x for x in holder.types if x.name == cname]
+        obs = dict(extends=ident(t[0].extends) if t else "<type missing>",
+                   components=sorted(v.name for v in t[0].variables) if t else None,
+                   bindings=sorted(b.name for b in t[0].boundprocs) if t else None)
+        exp = dict(extends=("base", "object_t"), components=["c0", "c1"], bindings=["b0"])
+        st.states.add(core.digest([case, obs]))
+        if obs != exp:
+            st.violation("reference-slot-wrong", stratum, feats, inp, obs, exp)
+            st.stratum(stratum, 1)
+        else:
+            st.stratum(stratum, 0)
+
+
 def gen_cases(tier):
+    for via, child, where in itertools.product(EXT_VIA, EXT_CHILD, EXT_WHERE):
+        if child == "original-name" and via in ("only", "plain", "reexport-plain"):
+            continue  # the name is taken by the import itself
+        yield ("extends", via, child, where)
     F = FORMS if tier == "thorough" else [f for f in FORMS if f not in ("only-empty", "only-twice", "prefix")]
     cons_all = CONSUMERS
     for dA in ("none", "private"):
@@ -507,7 +582,10 @@ def work(args):
         return out
 
     for case in chunk:
-        run_case(st, case, perms)
+        if case[0] == "extends":
+            run_extends(st, case, perms)
+        else:
+            run_case(st, case, perms)
     return st
 
 
@@ -520,7 +598,7 @@ def replay(path):
     case = tuple(tuple(x) if isinstance(x, list) else x for x in case)
     st = Stats()
     order = tuple(rec["input"]["order"])
-    run_case(st, case, lambda names: [order])
+    (run_extends if case[0] == "extends" else run_case)(st, case, lambda names: [order])
     for f, t in rec["input"]["files"].items():
         print("-----", f)
         print(t)
